@@ -354,10 +354,10 @@ where
                 AlnWriter::new(&self.seq, self.k, &self.repeat_coors, self.ambig_mask);
                 self.mapped_names.len()
             ];
-        rayon::ThreadPoolBuilder::new()
+        // The global pool may already have been set up when building from sequence input
+        let _ = rayon::ThreadPoolBuilder::new()
             .num_threads(threads)
-            .build_global()
-            .unwrap();
+            .build_global();
         seq_writers
             .par_iter_mut()
             .enumerate()
